@@ -9,6 +9,7 @@ import (
 	"strconv"
 	"strings"
 	"sync"
+	"sync/atomic"
 	"testing"
 	"time"
 
@@ -16,6 +17,7 @@ import (
 	"verifh/drv"
 	"verifh/fakeredis"
 	"verifh/mon"
+	"verifh/resp"
 )
 
 // C21: a command is received by a replica-role node only when SendToReplicas returned true for it (standalone and
@@ -47,6 +49,9 @@ type world struct {
 	role        map[string]string // addr -> master | slave
 	primary     string            // non-cluster
 	nrep        int
+	layout      [][]shardEntry // cluster worlds whose CLUSTER SHARDS reply lists non-online nodes (nil otherwise)
+	flags       []shardFlags   // per shard, derived from layout
+	shardsSent  atomic.Int64   // CLUSTER SHARDS replies served from layout
 
 	mu        sync.Mutex
 	decisions map[string][]bool
@@ -167,12 +172,22 @@ type worldCfg struct {
 	ReplicaOnly bool   `json:"replica_only,omitempty"`
 	AZInfo      bool   `json:"az_info,omitempty"`
 	Shards8     bool   `json:"cluster_shards_v8,omitempty"`
+	// per shard, the nodes CLUSTER SHARDS announces, in order, when the reply lists nodes that are not online
+	Layout [][]shardEntry `json:"cluster_shards_nodes,omitempty"`
 }
 
-func newWorld(cfg worldCfg, seed int64) (*world, error) {
+func newWorld(cfg worldCfg, seed int64) (_ *world, err error) {
 	w := &world{mode: cfg.Mode, predName: cfg.Pred, selName: cfg.Sel, replicaOnly: cfg.ReplicaOnly, role: map[string]string{},
 		decisions: map[string][]bool{}, slotSel: map[uint16][]selCall{}, nrep: cfg.Replicas}
 	w.name = fmt.Sprintf("%+v", cfg)
+	defer func() { // a panic while the client is set up: release the fake server, the caller reports it
+		if p := recover(); p != nil {
+			if w.srv != nil {
+				w.srv.Close()
+			}
+			panic(p)
+		}
+	}()
 	o := fakeredis.Options{Seed: seed}
 	if cfg.Shards8 {
 		o.Version = "8.0.0"
@@ -227,6 +242,36 @@ func newWorld(cfg worldCfg, seed int64) (*world, error) {
 			}
 		}
 		w.srv.EnableCluster()
+		if cfg.Layout != nil {
+			w.layout = cfg.Layout
+			ranges := make([][][2]int, len(prims))
+			start, cur := 0, shardIndexOf(w.srv.SlotOwner(0))
+			for i := 1; i <= 16384; i++ {
+				o := -1
+				if i < 16384 {
+					o = shardIndexOf(w.srv.SlotOwner(i))
+				}
+				if o != cur {
+					if cur >= 0 && cur < len(ranges) {
+						ranges[cur] = append(ranges[cur], [2]int{start, i - 1})
+					}
+					start, cur = i, o
+				}
+			}
+			for _, es := range cfg.Layout {
+				w.flags = append(w.flags, flagsOf(es))
+			}
+			reply := shardsReply(cfg.Layout, ranges)
+			w.srv.Lock()
+			w.srv.ClusterReply = func(_, sub string) (resp.V, bool) { // called under the server lock
+				if sub != "SHARDS" {
+					return resp.V{}, false
+				}
+				w.shardsSent.Add(1)
+				return reply, true
+			}
+			w.srv.Unlock()
+		}
 		opt = drv.Option(w.srv, prims[0])
 	}
 	opt.EnableReplicaAZInfo = cfg.AZInfo
@@ -250,6 +295,14 @@ func newWorld(cfg worldCfg, seed int64) (*world, error) {
 	return w, nil
 }
 
+// topo names the topology feature of the world in violation keys ("" = every announced node is online).
+func (w *world) topo() string {
+	if w.layout != nil {
+		return "|cluster-shards-lists-non-online-nodes"
+	}
+	return ""
+}
+
 func (w *world) close() {
 	w.client.Close()
 	w.srv.Close()
@@ -270,7 +323,7 @@ func (w *world) newUID() (uid string, n int) {
 
 func TestC21(t *testing.T) {
 	run := mon.Start(t, "C21", "exploration",
-		"client modes standalone+1-4 replicas (ReplicaAddress), standalone EnableRedirect without replicas, sentinel+1-3 replicas, cluster 2-4 shards x 1-3 replicas (CLUSTER SLOTS and SHARDS), ReplicaOnly sentinel/cluster; SendToReplicas in {always, never, read-only only, uid parity}; "+
+		"client modes standalone+1-4 replicas (ReplicaAddress), standalone EnableRedirect without replicas, sentinel+1-3 replicas, cluster 2-4 shards x 1-3 replicas (CLUSTER SLOTS and SHARDS; half of the SHARDS worlds announce non-online nodes in random positions of the shards' node lists: failed old masters still flagged master next to the online one, failed / loading replicas, shards whose only master is failed), ReplicaOnly sentinel/cluster; SendToReplicas in {always, never, read-only only, uid parity}; "+
 			"ReplicaSelector / ReadNodeSelector returning -1, 0, n-1, n, n+1, 2^30 or a cycling mix, with and without EnableReplicaAZInfo; calls Do (read-only and write), DoMulti (1-8, mixed), DoCache, DoMultiCache, DoStream, DoMultiStream and key-less commands, one at a time; "+
 			"a case = (mode, predicate, selector, replica count, call kind) and is non-trivial when replicas exist and the predicate was consulted or the client is ReplicaOnly")
 	defer run.Finish()
@@ -279,10 +332,33 @@ func TestC21(t *testing.T) {
 	nWorlds := run.N(1000, 25000)
 	calls := run.N(36, 60)
 	rng := run.Rand("worlds")
+	lrng := run.Rand("cluster-shards-layout") // its own stream: the worlds of a seed are the same with and without layouts
 	ctx := context.Background()
 	for wi := 0; wi < nWorlds; wi++ {
 		cfg := genWorld(rng, wi)
-		w, err := newWorld(cfg, run.Seed*7919+int64(wi))
+		if cfg.Mode == "cluster" && cfg.Shards8 && lrng.Intn(2) == 0 {
+			cfg.Layout = genShardsLayout(lrng, cfg)
+		}
+		var w *world
+		var err error
+		func() {
+			defer func() {
+				if p := recover(); p != nil {
+					topo := ""
+					if cfg.Layout != nil {
+						topo = "|cluster-shards-lists-non-online-nodes"
+					}
+					run.Violation("panic", fmt.Sprintf("%s|replicas=%d|sel=%s|client-setup%s|%s", cfg.Mode, cfg.Replicas, selClass(cfg.Sel), topo, firstLine(fmt.Sprint(p))),
+						map[string]any{"world": cfg, "call": "NewClient", "panic": fmt.Sprint(p)})
+					err = fmt.Errorf("panic: %v", p)
+					w = nil
+				}
+			}()
+			w, err = newWorld(cfg, run.Seed*7919+int64(wi))
+		}()
+		if w == nil && err != nil && strings.HasPrefix(err.Error(), "panic: ") {
+			continue // reported as a violation above
+		}
 		if err != nil {
 			run.Inconclusive("client setup failed: " + err.Error() + " for " + fmt.Sprintf("%+v", cfg))
 			continue
@@ -292,14 +368,19 @@ func TestC21(t *testing.T) {
 			func() {
 				defer func() {
 					if p := recover(); p != nil {
-						run.Violation("panic", fmt.Sprintf("%s|replicas=%d|sel=%s|%s|%s", cfg.Mode, cfg.Replicas, selClass(cfg.Sel), kind, firstLine(fmt.Sprint(p))), map[string]any{"world": cfg, "call": kind, "panic": fmt.Sprint(p)})
+						run.Violation("panic", fmt.Sprintf("%s|replicas=%d|sel=%s|%s%s|%s", cfg.Mode, cfg.Replicas, selClass(cfg.Sel), kind, w.topo(), firstLine(fmt.Sprint(p))), map[string]any{"world": cfg, "call": kind, "panic": fmt.Sprint(p)})
 					}
 				}()
 				w.oneCall(run, rng, ctx, cfg, kind)
 			}()
 		}
+		if w.layout != nil {
+			run.Observe("worlds_cluster_shards_listing_non_online_nodes", 1)
+			run.Observe("cluster_shards_replies_listing_non_online_nodes_served", w.shardsSent.Load())
+		}
 		w.close()
 	}
+	run.Require("recv_on_primary_without_opt_in_shard_lists_failed_master", "recv_on_primary_without_opt_in_failed_master_listed_after_online_master")
 	run.Require("recv_on_replica_with_opt_in", "recv_on_primary_without_opt_in", "selector_out_of_range_fell_back_to_primary", "selector_in_range_honoured",
 		"batch_not_all_true_on_primary", "replica_only_recv_on_replica", "cluster_per_command_split",
 		"keyless_member_not_opted_in_on_primary", "keyless_member_opted_in_on_replica")
@@ -513,7 +594,7 @@ func (w *world) oneCall(run *mon.Run, rng *rand.Rand, ctx context.Context, cfg w
 	}
 	firstSeen := map[string]bool{}
 	keyOf := func(what string) string {
-		return fmt.Sprintf("%s|%s|pred=%s|sel=%s|%s", w.mode, kind, w.predName, selClass(w.selName), what)
+		return fmt.Sprintf("%s|%s|pred=%s|sel=%s|%s%s", w.mode, kind, w.predName, selClass(w.selName), what, w.topo())
 	}
 	// non-cluster batches (and the cluster's single-connection DoMultiStream) go to a replica only when every member opted in
 	batchRule := batch && (w.mode != "cluster" || kind == "DoMultiStream")
@@ -538,6 +619,26 @@ func (w *world) oneCall(run *mon.Run, rng *rand.Rand, ctx context.Context, cfg w
 		wit := func() map[string]any {
 			return map[string]any{"world": cfg, "call": kind, "command": e.Argv, "received_by": e.Node, "role": role, "send_to_replicas_returned": dec[uid],
 				"batch_all_true": allMembersTrue, "selector_calls": fmtSel(selCalls), "issued": fmt.Sprintf("%+v", cmdsIssued)}
+		}
+		if w.layout != nil && ic.key != "" && !w.replicaOnly { // how often the shard the command went to announced non-online nodes
+			if si := shardIndexOf(e.Node); si >= 0 && si < len(w.flags) && w.flags[si].nonOnline {
+				f := w.flags[si]
+				switch {
+				case role == "slave" && premise:
+					run.Observe("recv_on_replica_with_opt_in_shard_lists_non_online_node", 1)
+				case role != "slave" && !premise:
+					run.Observe("recv_on_primary_without_opt_in_shard_lists_non_online_node", 1)
+					if f.failedMaster {
+						run.Observe("recv_on_primary_without_opt_in_shard_lists_failed_master", 1)
+					}
+					if f.failedAfterOnline {
+						run.Observe("recv_on_primary_without_opt_in_failed_master_listed_after_online_master", 1)
+					}
+					if f.failedLast {
+						run.Observe("recv_on_primary_without_opt_in_failed_master_listed_last", 1)
+					}
+				}
+			}
 		}
 		if role == "slave" {
 			switch {
@@ -575,6 +676,16 @@ func (w *world) oneCall(run *mon.Run, rng *rand.Rand, ctx context.Context, cfg w
 		// selector fall-back
 		if first && premise && !w.replicaOnly && ic.key != "" && !(w.mode == "cluster" && kind == "DoMulti" && hasKeyless) {
 			w.checkSelector(run, e, ic, selCalls, keyOf, wit)
+		}
+	}
+	if w.layout != nil {
+		for _, ic := range cmdsIssued { // informative: commands for a shard that announces no online master and that no node received
+			if ic.key == "" || firstSeen[ic.uid] {
+				continue
+			}
+			if si := shardIndexOf(w.srv.SlotOwner(fakeredis.Slot(ic.key))); si >= 0 && si < len(w.flags) && w.flags[si].masterless {
+				run.Observe("keyed_command_for_shard_without_online_master_reached_no_node", 1)
+			}
 		}
 	}
 	if w.mode == "cluster" && batch {
